@@ -35,8 +35,13 @@ use {
 };
 
 
+#[cfg(not(ohkami_verif))]
 #[cfg(feature="__rt_native__")]
 pub(crate) const BUF_SIZE: usize = 1 << 10;
+#[cfg(ohkami_verif)]
+#[cfg(feature="__rt_native__")]
+/// verification builds use a small request buffer so that every scanning loop has a small bound
+pub const BUF_SIZE: usize = 32;
 #[cfg(feature="__rt_native__")]
 pub(crate) const PAYLOAD_LIMIT: usize = 1 << 32;
 
@@ -485,6 +490,19 @@ impl Request {
         }
 
         Result::<(), lambda_runtime::Error>::Ok(())
+    }
+}
+
+#[cfg(ohkami_verif)]
+#[cfg(feature="__rt_native__")]
+impl Request {
+    /// verification hook: the private `read_payload`
+    pub(crate) async fn __verif_read_payload(
+        stream:        &mut (impl AsyncRead + Unpin),
+        remaining_buf: &[u8],
+        size:          usize,
+    ) -> CowSlice {
+        Self::read_payload(stream, remaining_buf, size).await
     }
 }
 
